@@ -32,7 +32,9 @@ TRemove == /\ Is("remove")
 TFlush  == /\ Is("flush")
            /\ IF dead # {} THEN Flush /\ SameGraph ELSE UNCHANGED vars
 TSearch == Is("search") /\ SetOf(Ev.res) = SearchFrom(Ev.q) /\ UNCHANGED vars
-TraceNext == TReset \/ TAdd \/ TRemove \/ TFlush \/ TSearch
+\* a search with efSearch below the resident count is outside the regime of this module: judged by HNSWP (non-emptiness) only
+TLowEf == Is("search.lowef") /\ UNCHANGED vars
+TraceNext == TReset \/ TAdd \/ TRemove \/ TFlush \/ TSearch \/ TLowEf
 TraceSpec == Init /\ l = 1 /\ [][TraceNext]_tvars
 Accepted == LET d == TLCGet("stats").diameter IN PrintT("CONSUMED " \o ToString(d - 1))
 =============================================================================
